@@ -321,3 +321,34 @@ def merge_marker(twice: bool, n_defaults: int, own_marker: bool) -> bool:
     ok = ok and len(markers) == 1 and markers[0].attrib.get(S_NS + "class") == "theirs"
     defaults = [c.attrib.get(S_NS + "family") for c in cont._children if c.tag == S_NS + "default-style"]
     return done(ok and sorted(defaults) == sorted(fams))
+
+
+def merge_cross(k2: int, mine_in_auto: bool) -> bool:
+    """
+    pre: 0 <= k2 <= 2
+    post: _
+    """
+    # same family+name defined in DIFFERENT containers of styles.xml (office:styles vs
+    # office:automatic-styles, as in documents written by office suites): after the merge the part
+    # holds one definition of it - the other document's - and the lookup finds that one
+    n1, n2 = MNAMES[K1], MNAMES[k2]
+    dest, other = Doc(), Doc()
+    mine = _marked(FAMILY, n1, "mine")._Element__element
+    theirs = _marked(FAMILY, n2, "theirs")._Element__element
+    containers(dest)["styles:automatic-styles" if mine_in_auto else "styles:styles"].append(mine)
+    containers(other)["styles:styles" if mine_in_auto else "styles:automatic-styles"].append(theirs)
+    before_other = _style_state(other)
+    dest.merge_styles_from(other)
+    ok = _same_state(_style_state(other), before_other)
+    defs = []
+    for k in ("styles:styles", "styles:automatic-styles"):
+        for ch in containers(dest)[k]._children:
+            if ch.attrib.get(S_NS + "family") == FAMILY and ch.attrib.get(S_NS + "name") == n2:
+                defs.append(ch.attrib.get(S_NS + "class"))
+    ok = ok and defs == ["theirs"]
+    got = dest.styles.get_style(FAMILY, n2)
+    ok = ok and got is not None and got._Element__element.attrib.get(S_NS + "class") == "theirs"
+    if n1 != n2:
+        g1 = dest.styles.get_style(FAMILY, n1)
+        ok = ok and g1 is not None and g1._Element__element.attrib.get(S_NS + "class") == "mine"
+    return done(ok)
